@@ -555,7 +555,7 @@ func runSynthetic(sc *bw.Scenario, log *simkit.Log, out *simkit.Outcome) {
 	}
 	if sc.Manifest != nil {
 		dir := "/w/synth"
-		for _, d := range []string{"pkgdir", "pkgdir0", "pkgdir-old", "pkg"} {
+		for _, d := range []string{"pkgdir", "pkgdir0", "pkgdir-old", "pkg", "..cache", "..."} {
 			os.MkdirAll(dir+"/"+d+"/m1", 0o755)
 			os.WriteFile(dir+"/"+d+"/main.tf", []byte(d), 0o644)
 		}
